@@ -51,6 +51,11 @@ def main():
     except core.Machinery as e:
         print("MACHINERY-FAILURE %s: %s" % (a.what, e))
         return 2
+    except Exception:
+        # a bug in the harness itself must never look like a verdict (exit 1 is reserved for violations)
+        print("MACHINERY-FAILURE %s: unexpected exception in the harness" % a.what)
+        traceback.print_exc()
+        return 2
 
 
 if __name__ == "__main__":
